@@ -59,15 +59,22 @@ def run(F, R, tier):
             in_legacy = [n for n in dec if any(c[0] == "if" and c[2] is True and H.negated(c[1])[1] for c in tree.path_conditions(n))]
             r1.require(len(dec) == 2 and len(in_legacy) == 1, (fn, "legacy-branch"), "the legacy branch (one extra base64 decode under !starts_with) was not found")
     # writer side uses Compression::default
-    cz = F.mir(RB + "::compress_zlib")
-    if r1.anchor(cz, "compress_zlib"):
+    enc_holders = []
+    for p_, b_ in F.fn_bodies(crates=None):
+        if p_.startswith(RB.rsplit("::", 1)[0] + "::") and "{closure" not in p_:
+            m_ = F.mir(p_)
+            if m_ is not None and m_.calls(re.compile(r"ZlibEncoder(<.*>)?::new$")):
+                enc_holders.append((p_, m_))
+    r1.require(len(enc_holders) >= 1, ("compress_zlib", "ANCHOR"), "no function of the bitmap module creates the zlib encoder")
+    for czf_, cz in enc_holders:
         comp = [M.callee(t) for _, t in cz.calls(re.compile(r"Compression"))]
         r1.site("writer compression: %s" % [L.short(c) for c in comp], cz.rec["span"])
         isdef = lambda c: re.search(r"Compression as core::default::Default>::default$|Compression::default$", c) is not None  # noqa: E731
         r1.require(bool(comp) and all(isdef(c) for c in comp), ("compress_zlib", "compression-level"), "the writer does not always use Compression::default() (%s): the zlib header bytes — and with them the magic prefix the reader tests — change for some bitmaps" % [L.short(c) for c in comp if not isdef(c)])
     # and, on the decision table, every encoder is created with that level whatever the input
-    czf = RB + "::compress_zlib"
-    if F.hir(czf) is not None:
+    for czf, _m in enc_holders:
+        if F.hir(czf) is None:
+            continue
         tabz = SR.Table(F, czf, opaque=r"ZlibEncoder(<.*>)?::new$|Compression::\w+$|Compression as core::default::Default>::default$|write_all$|finish$", rule=r1)
         okz = bool(tabz.paths)
         for q in tabz.paths:
@@ -93,47 +100,74 @@ def run(F, R, tier):
         r2.site("encode base %s; decode bases %s (legacy inner, then outer)" % (sb, db))
         r2.require(sb == ["Base64Url"], ("serialize", "base"), "the writer does not use Base64Url: %s" % sb)
         r2.require(db and db[-1] == "Base64Url" and sorted(db) == ["Base64", "Base64Url"], ("deserialize", "base"), "the reader does not decode Base64Url (after an optional legacy Base64 layer): %s" % db)
-    for name, enc_re, must_all in (("compress_zlib", r"ZlibEncoder(<.*>)?::new$", True), ("decompress_zlib", r"ZlibDecoder(<.*>)?::new$", True)):
-        b = F.mir(RB + "::" + name)
-        if not r2.anchor(b, name):
+    def holders(pat):
+        """(name, MIR) of the functions of the bitmap module that create the codec — wherever the step lives after a refactor"""
+        out = []
+        for p_, b_ in F.fn_bodies(crates=None):
+            if p_.startswith(RB.rsplit("::", 1)[0] + "::") and "{closure" not in p_:
+                m_ = F.mir(p_)
+                if m_ is not None and m_.calls(re.compile(pat)):
+                    out.append((p_.rsplit("::", 1)[-1], m_))
+        return out
+    for role, enc_re in (("compress_zlib", r"ZlibEncoder(<.*>)?::new$"), ("decompress_zlib", r"ZlibDecoder(<.*>)?::new$")):
+        hs = holders(enc_re)
+        if not r2.require(len(hs) >= 1, (role, "codec"), "no function of the bitmap module creates the %s" % ("zlib encoder" if role.startswith("comp") else "zlib decoder")):
             continue
-        ctor = b.calls(re.compile(enc_re))
-        wa = b.calls(re.compile(r"(^std::io::Write::write_all$|as std::io::Write>::write_all$)"))
-        fin = b.calls(re.compile(r"::finish$"))
-        sw = L.short_write_sites(b)
-        r2.site("%s: ctor×%d write_all×%d finish×%d unchecked short writes×%d" % (name, len(ctor), len(wa), len(fin), len(sw)), b.rec["span"])
-        r2.require(bool(ctor) and bool(fin), (name, "codec"), "%s does not construct the zlib codec and finish it" % name)
-        for bi, t in sw:
-            r2.fail((RB + "::" + name, "short-write"), "%s feeds the codec with `Write::write` and never inspects the byte count: large inputs are truncated (use write_all)" % name, t["sp"])
-        r2.require(bool(wa) or bool(b.calls(L.IO_WRITE)), (name, "no-write"), "%s never writes its input into the codec" % name)
-        for bi, t in fin + wa:
-            import c01
-            use = c01.result_use(b, bi)
-            r2.require(use in ("propagated", "returned", "matched"), (RB + "::" + name, "io-result", M.callee(t).rsplit("::", 1)[-1], use), "%s: the io::Result of %s is %s" % (name, L.short(M.callee(t)), use), t["sp"])
-    sv = F.mir(RB + "::serialize_vec")
-    ds = F.mir(RB + "::deserialize_slice")
-    if r2.anchor(sv, "serialize_vec") and r2.anchor(ds, "deserialize_slice"):
-        a = sv.calls(re.compile(r"RoaringBitmap::serialize_into$"))
-        b = ds.calls(re.compile(r"RoaringBitmap::deserialize_from$"))
-        r2.site("roaring serialize_into×%d / deserialize_from×%d" % (len(a), len(b)))
-        r2.require(bool(a) and bool(b), ("roaring", "pair"), "roaring serialize_into / deserialize_from pair not found")
-    # pipeline order
-    h = F.hir(RB + "::serialize_compressed_base64")
-    if h:
-        env = H.Env(h)
-        fns = H.called_fns(H.root(h))
-        r2.require({RB + "::serialize_vec", RB + "::compress_zlib"} <= fns, ("serialize", "pipeline"), "serialize pipeline is not serialize_vec → compress_zlib → base64url")
-        for c in H.calls(h, RB + "::compress_zlib"):
-            r2.require(H.origins(c["args"][0], env) == {("call", RB + "::serialize_vec")}, ("serialize", "compress-arg"), "compress_zlib is not applied to serialize_vec()")
-    h = F.hir(RB + "::deserialize_compressed_base64")
-    if h:
-        env = H.Env(h)
-        for c in H.calls(h, RB + "::deserialize_slice"):
-            oo = H.origins(c["args"][0], env)
-            r2.require(oo == {("call", RB + "::decompress_zlib")}, ("deserialize", "slice-arg"), "deserialize_slice is not applied to the decompressed data")
-        for c in H.calls(h, RB + "::decompress_zlib"):
-            oo = H.origins(c["args"][0], env)
-            r2.require(bool(oo) and all(o[0] == "call" and o[1].endswith("BaseEncoding::decode") for o in oo), ("deserialize", "decompress-arg"), "decompress_zlib is not applied to the base64url-decoded data")
+        for name, b in hs:
+            ctor = b.calls(re.compile(enc_re))
+            wa = b.calls(re.compile(r"(^std::io::Write::write_all$|as std::io::Write>::write_all$)"))
+            fin = b.calls(re.compile(r"::finish$"))
+            sw = L.short_write_sites(b)
+            r2.site("%s: ctor×%d write_all×%d finish×%d unchecked short writes×%d" % (name, len(ctor), len(wa), len(fin), len(sw)), b.rec["span"])
+            r2.require(bool(ctor) and bool(fin), (name, "codec"), "%s does not construct the zlib codec and finish it" % name)
+            for bi, t in sw:
+                r2.fail((RB + "::" + name, "short-write"), "%s feeds the codec with `Write::write` and never inspects the byte count: large inputs are truncated (use write_all)" % name, t["sp"])
+            r2.require(bool(wa) or bool(b.calls(L.IO_WRITE)), (name, "no-write"), "%s never writes its input into the codec" % name)
+            for bi, t in fin + wa:
+                import c01
+                use = c01.result_use(b, bi)
+                r2.require(use in ("propagated", "returned", "matched"), (RB + "::" + name, "io-result", M.callee(t).rsplit("::", 1)[-1], use), "%s: the io::Result of %s is %s" % (name, L.short(M.callee(t)), use), t["sp"])
+    # the two pipelines on their decision tables (private helpers inlined, so it does not matter how the steps are split up):
+    #   write: roaring serialize_into(self.0) ✓ → zlib(write_all ✓, finish ✓) → Base64Url
+    #   read : Base64Url decode ✓ (after the optional legacy Base64 layer) → unzlib(write_all ✓, finish ✓) → roaring deserialize_from ✓
+    POPQ = (r"RoaringBitmap::\w+$|Zlib(En|De)coder(<.*>)?::new$|write_all$|Write::write$|::finish$|BaseEncoding::(en|de)code$|Compression::\w+$|Default>::default$|from_utf8$|serialized_size$")
+    sfn = RB + "::serialize_compressed_base64"
+    if F.hir(sfn) is not None:
+        tabw = SR.Table(F, sfn, opaque=POPQ, rule=r2, inline_depth=5)
+        okw = bool(tabw.ok())
+        for q in tabw.ok():
+            si = [e for e in q.calls(r"RoaringBitmap::serialize_into$") if q.succeeded(e) is True and SR.derives(e.args[0], SR.fld("0"))]
+            wa = [e for e in q.calls(r"write_all$") if q.succeeded(e) is True]
+            fin = [e for e in q.calls(r"::finish$") if q.succeeded(e) is True]
+            enc = q.calls(r"BaseEncoding::encode$")
+            zn = q.calls(r"ZlibEncoder(<.*>)?::new$")
+            good = len(si) == 1 and len(zn) == 1 and len(wa) >= 1 and len(fin) == 1 and len(enc) == 1
+            if good:
+                buf = si[0].args[1]
+                good = (any(SR.derives(e.args[0], zn[0].result.t) and (SR.derives(e.args[1], sym.term(buf)) or SR.derives(e.args[1], si[0].result.t)) for e in wa)
+                        and SR.derives(fin[0].args[0], zn[0].result.t) and SR.derives(enc[0].args[0], fin[0].result.t) and SR.pure(q.ret, enc[0].result.t)
+                        and "Base64Url" in str(enc[0].args[1]))
+            if not r2.require(good, ("serialize", "pipeline"), "serialize pipeline is not roaring serialize_into(self) ✓ → zlib write_all ✓ / finish ✓ → Base64Url: %s" % [str(e)[:60] for e in q.events][:8]):
+                okw = False
+        r2.site("serialize: roaring → zlib → base64url on %d accepting path(s): %s" % (len(tabw.ok()), okw))
+    dfn = RB + "::deserialize_compressed_base64"
+    if F.hir(dfn) is not None:
+        tabr = SR.Table(F, dfn, opaque=POPQ + r"|starts_with$", rule=r2, inline_depth=5)
+        okr = bool(tabr.ok())
+        for q in tabr.ok():
+            dec = [e for e in q.calls(r"BaseEncoding::decode$") if q.succeeded(e) is True]
+            wa = [e for e in q.calls(r"write_all$") if q.succeeded(e) is True]
+            fin = [e for e in q.calls(r"::finish$") if q.succeeded(e) is True]
+            zn = q.calls(r"ZlibDecoder(<.*>)?::new$")
+            df = [e for e in q.calls(r"RoaringBitmap::deserialize_from$") if q.succeeded(e) is True]
+            good = bool(dec) and "Base64Url" in str(dec[-1].args[1]) and len(zn) == 1 and bool(wa) and len(fin) == 1 and len(df) == 1
+            if good:
+                outer = ("payload", dec[-1].result.t, "Ok", 0)
+                good = (any(SR.derives(e.args[0], zn[0].result.t) and SR.derives(e.args[1], outer) for e in wa) and SR.derives(fin[0].args[0], zn[0].result.t)
+                        and SR.derives(df[0].args[0], fin[0].result.t) and SR.derives(q.ret, df[0].result.t))
+            if not r2.require(good, ("deserialize", "pipeline"), "deserialize pipeline is not Base64Url decode ✓ → unzlib write_all ✓ / finish ✓ → roaring deserialize_from ✓: %s" % [str(e)[:60] for e in q.events][:9]):
+                okr = False
+        r2.site("deserialize: base64url → unzlib → roaring on %d accepting path(s): %s" % (len(tabr.ok()), okr))
     # DATA_URL_PATTERN shared
     te = F.hir(RB + "::to_endpoint")
     tf = F.hir(RB + "::try_from_endpoint")
